@@ -266,6 +266,9 @@ func (h Header) sortedKeyValues() (kvs []keyValues, hs *headerSorter) {
 	return kvs, hs
 }
 
+// maxBodyLength 消息体(Content-Length)的上限；RTSP 的消息体是 SDP 或参数列表
+const maxBodyLength = 1 << 20
+
 // readLine 读取一行
 func readLine(r *bufio.Reader) (string, error) {
 	const maxLineLenght = 16 * 1024
@@ -275,6 +278,9 @@ func readLine(r *bufio.Reader) (string, error) {
 		l, more, err := r.ReadLine()
 		if err != nil {
 			return "", err
+		}
+		if len(line)+len(l) > maxLineLenght { // 超长行：拒绝，而不是无限缓存
+			return "", &badStringError{"line over the maximum length", ""}
 		}
 		// Avoid the copy if the first call produced a full line.
 		if line == nil && !more {
